@@ -93,7 +93,7 @@ func (h *History) emit(t *rapid.T, op Op) {
 	}
 	if h.cfg.Arena && op.Spare == 0 && op.Off == 0 {
 		op.Off = drawInt(t, 0, 8, "off")
-		op.Spare = drawInt(t, 0, 3, "spare")
+		op.Spare = pick(t, []int{0, 0, 1, 1, 2, 3, 3, 8, 24, 60}, "spare")
 		op.Fill = weighted(t, []int{4, 2, 2, 1}, "fill")
 	}
 	if h.cfg.ValType == "empty" {
@@ -326,6 +326,9 @@ func (h *History) bound(t *rapid.T, ti int, other []byte) ([]byte, string) {
 		return h.freshKey(t, ti), "fresh"
 	case 6:
 		if _, ok := s.kind.(*alphaKind); ok {
+			return []byte{}, "empty"
+		}
+		if _, ok := s.kind.(*rawCmpKind); ok {
 			return []byte{}, "empty"
 		}
 		return h.freshKey(t, ti), "fresh"
